@@ -22,7 +22,7 @@ func VH_message_decoders_any_bytes() {
 	in := vNondetBytes("in", n)
 	msg, err := makeEmptyMessage(cmd)
 	vAssert(err == nil, "known command")
-	vAllocBound(2 * MaxMessagePayload)
+	vAllocBound(4 * MaxMessagePayload) // "a fixed multiple": the largest single allocation is the TxIn array of a maximal count claim (~2.5x)
 	vAllocSplit(2)
 	vSliceSplit(3)
 	r := bytes.NewReader(in)
